@@ -64,3 +64,55 @@ package transports
 // (a failing draw - impossible for an HKDF reader asked for a few bytes - is answered with port 0 and a nil error by
 // the code; the clause is about successful draws)
 //@   ensures @C01: result1 == nil && defined(draw) && drawErr == nil ==> min <= result0 && result0 < max && result0 == min + draw
+
+// ---------------- C15: the keyed tag obfuscators (GCM, CTR) ----------------
+// What a contract can pin down without proving cryptography: the wire layout and the key schedule are the same on
+// both sides, and nothing can panic. Revealing: a ciphertext shorter than the representative (+ authenticator for GCM)
+// is rejected with ErrPublicKeyLen and EVERY longer one is processed (the key agreement is attempted on its first 32
+// bytes with the two top bits of byte 31 cleared); the AES key is bytes [0,16) and the nonce / IV bytes [16,28) /
+// [16,32) of SHA-256(shared secret); what is opened / decrypted is exactly ciphertext[32:]. Obfuscating: the same
+// slices of the same hash, a 12-byte nonce / 16-byte IV, the result is the 32-byte representative followed by the
+// sealed / encrypted tag. "Values an encoder cannot represent are rejected": a station key that is not 32 bytes long.
+//@ func (o GCMObfuscator) TryReveal(ciphertext []byte, privateKey [32]byte) ([]byte, error)
+//@   atcall X25519 before: snap attempted := true
+//@   atcall NewCipher before: assert @C15: len(arg0) == 16
+//@   atcall Open before: assert @C15: len(arg2) == 12 && arg3 == ciphertext[32:] && len(arg1) == 0 && len(arg4) == 0
+//@   ensures @C15: len(ciphertext) < 48 ==> result1 == ErrPublicKeyLen && result0 == nil
+//@   ensures @C15: len(ciphertext) >= 48 ==> defined(attempted)
+//@   ensures @C11: true
+//@   checks safety
+
+//@ func aesGcmEncrypt(plaintext []byte, key []byte, iv []byte) ([]byte, error)
+//@   requires len(iv) == 12
+//@   ensures @C15: len(key) == 16 ==> result1 == nil && len(result0) == len(plaintext) + 16
+//@   checks safety
+
+//@ func (o GCMObfuscator) Obfuscate(plainText []byte, stationPubkey []byte) ([]byte, error)
+//@   atcall aesGcmEncrypt before: assert @C15: arg0 == plainText && len(arg1) == 16 && len(arg2) == 12
+//@   ensures @C15: len(stationPubkey) != 32 ==> result1 != nil && result0 == nil
+//@   ensures @C11: true
+//@   checks safety
+//@ loop 1:
+//@   invariant len(stationPubkey) == 32
+
+//@ func aesCTR(in []byte, key []byte, iv []byte) ([]byte, error)
+//@   requires len(iv) == 16
+//@   ensures @C15: len(key) == 16 ==> result1 == nil && len(result0) == len(in) && string(result0) == ctrStream(old(string(key)), old(string(iv)), old(string(in)))
+//@   checks safety
+
+//@ func (o CTRObfuscator) TryReveal(ciphertext []byte, privateKey [32]byte) ([]byte, error)
+//@   atcall X25519 before: snap attempted := true
+//@   atcall aesCTR before: assert @C15: arg0 == ciphertext[32:] && len(arg1) == 16 && len(arg2) == 16
+//@   ensures @C15: len(ciphertext) < 32 ==> result1 == ErrPublicKeyLen && result0 == nil
+//@   ensures @C15: len(ciphertext) >= 32 ==> defined(attempted)
+//@   ensures @C15: result1 == nil ==> len(result0) == len(ciphertext) - 32
+//@   ensures @C11: true
+//@   checks safety
+
+//@ func (o CTRObfuscator) Obfuscate(plainText []byte, stationPubkey []byte) ([]byte, error)
+//@   atcall aesCTR before: assert @C15: arg0 == plainText && len(arg1) == 16 && len(arg2) == 16
+//@   ensures @C15: len(stationPubkey) != 32 ==> result1 != nil && result0 == nil
+//@   ensures @C11: true
+//@   checks safety
+//@ loop 1:
+//@   invariant len(stationPubkey) == 32
